@@ -330,6 +330,11 @@ def run_generic(prop: str, tier: str) -> int:
         for lang, origin, text in harvested_texts():
             jobs.append((lang, text, True))
             meta.append((lang, -2, [{"k": "corpus", "a": origin}]))
+    from ..langs import far_texts
+
+    for lang, origin, text in far_texts():
+        jobs.append((lang, text, want_tables))
+        meta.append((lang, -2, [{"k": "corpus", "a": origin}]))
     res = pmap(observe_input, jobs, timeout=30, chunk=128)
     # a time-out is only reported if it reproduces with ten times the budget
     for k, r in enumerate(res):
